@@ -683,6 +683,30 @@ def c11_users(maxlen):
     return gen
 
 
+def c11_sweep(maxbytes):
+    """Every length: decode of the valid text of every byte length 0..maxbytes (text lengths across 256, 512, 1024
+    and their neighbours: where an implementation switches between a fixed buffer and the heap), the same text with
+    padding, with one more character (length 1 mod 4 for some), and encode of the bytes."""
+    import base64
+
+    def gen(seed):
+        rnd = random.Random(seed * 7919 + 11)
+        ops = []
+        for n in range(0, maxbytes + 1):
+            b = rnd.randbytes(n)
+            t = base64.urlsafe_b64encode(b).rstrip(b"=")
+            ops.append(dict(op="Codec", dir="dec", chars=list(t)))
+            ops.append(dict(op="Codec", dir="dec", chars=list(base64.urlsafe_b64encode(b))))     # padded
+            ops.append(dict(op="Codec", dir="dec", chars=list(t + b"A")))
+            ops.append(dict(op="Codec", dir="enc", bytes=list(b)))
+            if len(ops) >= 40:
+                yield ops
+                ops = []
+        if ops:
+            yield ops
+    return gen
+
+
 def c11_random(ncases, per_case):
     """Random byte strings up to 64 KiB: encode; decode of valid text, of text with one
     foreign byte, of text of length 1 mod 4, of standard-alphabet spellings."""
